@@ -753,6 +753,41 @@ Proof.
   rewrite R, Dt, C. cbn [bind str_of_opt]. now rewrite G.
 Qed.
 
+(* a field of datatype varies: VARIES_<j> by its positional path, and no subcomponent path at all
+   (the field has no component structure to decode <k> against): ChildNotFound *)
+Lemma traverse_varies_comp k f j :
+  f_dt f = Some (unbs "varies") -> base t (Some (unbs "varies")) = false ->
+  field_traverse t lvl (S k) f (name_idx (unbs "varies") j) =
+  Ok (TChild (mk_sentry (name_idx (unbs "VARIES") j) varies_leaf CMP)).
+Proof.
+  intros D B. cbn [field_traverse].
+  assert (U : upper (name_idx (unbs "varies") j) = name_idx (unbs "VARIES") j) by (rewrite name_idx_upper; reflexivity).
+  rewrite guard_Field_upper
+    by (rewrite U; apply digit_name_not_attr; [apply attrs_no_digit_Field|apply has_digit_name_idx]).
+  rewrite U. unfold field_find_child_reference. rewrite D, B.
+  change (is_varies (Some (unbs "varies"))) with true. rewrite valid_child_name_idx.
+  reflexivity.
+Qed.
+
+Lemma positional_varies f fname a b :
+  f_name f = Some fname -> upper fname = fname -> bsplit US fname = [a; b] ->
+  f_dt f = Some (unbs "varies") -> base t (Some (unbs "varies")) = false ->
+  (forall st, f_st f = Some st -> has_map_st st = false) ->
+  (forall j, field_find_child_reference t f (name_idx fname j) = Err (HL7 EChildNotFound) ->
+             field_getattr t lvl f (name_idx fname j) =
+             Ok (TChild (mk_sentry (name_idx (unbs "VARIES") j) varies_leaf CMP)))
+  /\ (forall j k, field_find_child_reference t f (name_idx (name_idx fname j) k) = Err (HL7 EChildNotFound) ->
+                  field_getattr t lvl f (name_idx (name_idx fname j) k) = Err (HL7 EChildNotFound)).
+Proof.
+  intros Hn U S D B NM. unfold field_getattr. split.
+  - intros j H. rewrite (traverse_positional_comp 2 f fname a b j _ Hn U S D B H).
+    now apply traverse_varies_comp.
+  - intros j k H. rewrite (traverse_positional_sub 2 f fname a b j k _ Hn U S D B H).
+    rewrite (traverse_varies_comp 1 f j D B). cbn [bind].
+    unfold designated_component_ref. destruct (f_st f) as [st|] eqn:Hst; [|reflexivity].
+    now rewrite (NM st eq_refl).
+Qed.
+
 (* a field of base datatype: <field>_1 is its one component; every other index, and every
    subcomponent path, designates nothing *)
 Lemma positional_base f fname a b d :
